@@ -106,7 +106,9 @@ FlagRoot(c) == Msg("Root", <<Commented(Fld("Str", 1, "string"), c), Commented(Ms
 InnerC == Msg("Inner", <<Commented(Fld("Flag", 1, "bool"), Com6)>>, <<>>)
 FlagDesc(c) == Desc(<<LeafC(c), InnerC, EmptyM, FlagRoot(c)>>)
 
-Inj(name, ty, req, comp, opt) == [name |-> name, type |-> ty, required |-> req, computed |-> comp, optional |-> opt]
+Inj(name, ty, req, comp, opt) == [name |-> name, type |-> ty, required |-> req, computed |-> comp, optional |-> opt, validators |-> <<>>, planmods |-> <<>>]
+\* ... with validators / plan modifiers of its own (tags as for the fields)
+InjVP(name, ty, req, comp, opt, vs, pms) == [Inj(name, ty, req, comp, opt) EXCEPT !.validators = vs, !.planmods = pms]
 
 \* key sets for the flag lists: full paths, Message.field keys, mixtures
 FlagKeySets == << <<>>, <<"Root.Str">>, <<"Leaf.Str">>, <<"Root.Sub.Str">>, <<"Root.Subs">>, <<"Root.Str", "Root.Dict.Num", "Inner.Flag">>,
@@ -139,6 +141,11 @@ FlagShapesQuick == <<
   Shape("c10.inj.2", FlagDesc(Com1), [BaseCfg EXCEPT !.injected = <<[k |-> "Root", v |-> <<Inj("id", "string", FALSE, TRUE, FALSE), Inj("rev", "int64", TRUE, FALSE, FALSE)>>],
                                                                     [k |-> "Root.Sub", v |-> <<Inj("extra", "bool", FALSE, FALSE, TRUE)>>],
                                                                     [k |-> "Root.Subs", v |-> <<Inj("idx", "int64", FALSE, TRUE, TRUE)>>]>>]),
+  \* injected fields with plan modifiers only, validators only, both (the usual computed id with UseStateForUnknown)
+  Shape("c10.inj.pm", FlagDesc(Com1), [BaseCfg EXCEPT !.injected = <<[k |-> "Root", v |-> <<InjVP("id", "string", FALSE, TRUE, FALSE, <<>>, <<"2">>)>>],
+                                                                      [k |-> "Root.Sub", v |-> <<InjVP("rev", "int64", FALSE, TRUE, TRUE, <<>>, <<"1", "3">>)>>]>>]),
+  Shape("c10.inj.val", FlagDesc(Com1), [BaseCfg EXCEPT !.injected = <<[k |-> "Root", v |-> <<InjVP("rev", "int64", FALSE, FALSE, TRUE, <<"1">>, <<>>),
+                                                                                            InjVP("tag", "string", FALSE, TRUE, TRUE, <<"3", "1">>, <<"1", "3">>)>>]>>]),
   \* injected fields for messages WITHOUT fields (a selected one and a nested one): the placeholder stays
   [Shape("c10.inj.empty", Desc(<<EmptyM, Msg("Root", <<Fld("Str", 1, "string"), MsgF("Nothing", 2, "Empty"), Rep(MsgF("Subs", 3, "Empty"))>>, <<>>)>>),
          [BaseCfg EXCEPT !.types = <<"Root", "Empty">>,
@@ -424,6 +431,9 @@ DetAlts(long) ==
   [k \in 1..(IF long THEN 40 ELSE 10) |-> Alt("repeat." \o ToString(k), "C14.same_sha", <<>>, 0, <<>>)]
   \o [k \in 1..(IF long THEN 20 ELSE 5) |-> Alt("perm." \o ToString(k), "C14.same_sha", <<>>, k, <<>>)]
   \o [k \in 1..(IF long THEN 10 ELSE 3) |-> Alt("cliperm." \o ToString(k), "C14.same_sha", ChanAll("cli"), 100 + k, <<>>)]
+  \* an EMPTY entry in every `+` list of the command line (what a script that joins optional names produces), in front, after
+  \* the first entry, at the end: it names nothing, wherever it stands
+  \o [k \in 1..3 |-> [Alt("cligap." \o ToString(k), "C14.same_sha", ChanAll("cli"), IF k = 2 THEN 0 ELSE 200 + k, <<>>) EXCEPT !.cligap = k]]
 \* separate package, short default_package_name resolved by import_path_overrides which also holds an unrelated entry
 \* whose key is a prefix of the struct package's import path (exact-match lookup: the second entry is never used)
 DetSepCfg == [BaseCfg EXCEPT !.types = <<"Root", "Leaf">>, !.separate = TRUE, !.importoverride = TRUE, !.extraoverride = TRUE]
